@@ -740,7 +740,80 @@ pub fn type_exprs(thorough: bool) -> Vec<TypeExpr> {
             }
         }
     }
+    // the container-independence family of C12
+    for (elem, _) in c12_elements() {
+        for c in c12_containers(elem) {
+            let vec_of = if c.starts_with("Vec<") { Some(elem.to_string()) } else { None };
+            out.push(TypeExpr {
+                rust: c,
+                hash: false,
+                ord: false,
+                zero_width_elem: elem == "()",
+                zero_width: false,
+                vec_of,
+                depth: 3,
+            });
+        }
+    }
+    for (k, v) in c12_map_types() {
+        for c in c12_map_containers(k, v) {
+            out.push(TypeExpr { rust: c, hash: false, ord: false, zero_width_elem: false, zero_width: false, vec_of: None, depth: 3 });
+        }
+    }
+    for c in c12_byte_containers() {
+        out.push(TypeExpr { rust: c.to_string(), hash: false, ord: false, zero_width_elem: false, zero_width: false, vec_of: if c == "Vec<u8>" { Some("u8".into()) } else { None }, depth: 2 });
+    }
     let mut seen = std::collections::HashSet::new();
-    out.retain(|e| seen.insert(e.rust.clone()));
-    out
+    // the later (C12) duplicate of a row may carry the slice entry point: keep that one
+    let mut merged: Vec<TypeExpr> = Vec::new();
+    for e in out {
+        if seen.insert(e.rust.clone()) {
+            merged.push(e);
+        } else if e.vec_of.is_some() {
+            if let Some(m) = merged.iter_mut().find(|m| m.rust == e.rust) {
+                m.vec_of = e.vec_of;
+            }
+        }
+    }
+    merged
+}
+
+/// C12: element types (Rust spelling, model type)
+pub fn c12_elements() -> Vec<(&'static str, Ty)> {
+    vec![
+        ("u16", Ty::U16),
+        ("String", Ty::Str),
+        ("Option<u8>", Ty::Opt(Box::new(Ty::U8))),
+        ("(u8, u8)", Ty::Tuple(vec![Ty::U8, Ty::U8])),
+        ("()", Ty::Unit),
+    ]
+}
+
+pub fn c12_containers(elem: &str) -> Vec<String> {
+    vec![
+        format!("Vec<{elem}>"),
+        format!("[{elem}; 0]"),
+        format!("[{elem}; 1]"),
+        format!("[{elem}; 2]"),
+        format!("[{elem}; 3]"),
+        format!("std::collections::LinkedList<{elem}>"),
+        format!("std::collections::HashSet<{elem}>"),
+        format!("std::collections::BTreeSet<{elem}>"),
+    ]
+}
+
+pub fn c12_map_types() -> Vec<(&'static str, &'static str)> {
+    vec![("u8", "u16"), ("String", "String"), ("u8", "String")]
+}
+
+pub fn c12_map_containers(k: &str, v: &str) -> Vec<String> {
+    vec![
+        format!("Vec<({k}, {v})>"),
+        format!("std::collections::HashMap<{k}, {v}>"),
+        format!("std::collections::BTreeMap<{k}, {v}>"),
+    ]
+}
+
+pub fn c12_byte_containers() -> Vec<&'static str> {
+    vec!["Vec<u8>", "bytes::Bytes", "[u8; 0]", "[u8; 1]", "[u8; 2]", "[u8; 3]"]
 }
